@@ -33,7 +33,15 @@ def dispatch(fn):
     """The if/elif/else chain on the category letter: {'M': body, 'C': body, 'else': body} or None.  A leading guard clause
     (`if cat == 'M': return ...` followed later by the rest of the chain) is the same dispatch."""
     from sa.core import _ends_with_jump
-    body = list(fn.body)
+    bodies = [list(fn.body)] + [list(st.body) for st in fn.body if isinstance(st, ast.While) and const(st.test) is True]
+    for body in bodies:
+        r = _dispatch_in(body, _ends_with_jump)
+        if r is not None:
+            return r
+    return None
+
+
+def _dispatch_in(body, _ends_with_jump):
     for i, st in enumerate(body):
         if not (isinstance(st, ast.If) and _cat_test(st.test)):
             continue
@@ -243,6 +251,11 @@ def mask_application(ctx, rule, qual, branch_body, multi, strict_char_map=True):
             elif isinstance(n.target, ast.Tuple) and len(n.target.elts) == 2 and all(isinstance(e, ast.Name) for e in n.target.elts) \
                     and U(n.iter) == 'enumerate(mask)':
                 maps.append((n, n.target.elts[1].id, n.target.elts[0].id))
+            elif isinstance(n.target, ast.Tuple) and len(n.target.elts) == 2 and all(isinstance(e, ast.Name) for e in n.target.elts) \
+                    and U(n.iter) in ('zip(mask, end_word)', 'zip(end_word, mask)'):
+                # side-by-side form: the tail character itself is bound, no position needed
+                mi = 0 if U(n.iter) == 'zip(mask, end_word)' else 1
+                maps.append((n, n.target.elts[mi].id, ('zip', n.target.elts[1 - mi].id)))
     if len(maps) != 1:
         if not maps:
             ctx.unk(rule, qual, 'no pass over the mask characters recognised in the capitalisation branch')
@@ -256,7 +269,9 @@ def mask_application(ctx, rule, qual, branch_body, multi, strict_char_map=True):
         if isinstance(n, ast.Assign) and len(n.targets) == 1 and isinstance(n.targets[0], ast.Name):
             loop_assign.setdefault(n.targets[0].id, []).append(U(n.value))
     counter_ok = True
-    if k is None:
+    if isinstance(k, tuple):
+        pass
+    elif k is None:
         # counter form: last statement k += 1, k reset to 0 for every mask
         if len(body) == 2 and isinstance(body[1], ast.AugAssign) and isinstance(body[1].target, ast.Name) \
                 and isinstance(body[1].op, ast.Add) and const(body[1].value) == 1:
@@ -270,7 +285,8 @@ def mask_application(ctx, rule, qual, branch_body, multi, strict_char_map=True):
         t = body[0].test
         a1 = U(body[0].body[0])
         a2 = U(body[0].orelse[0])
-        keep, up = 'new_end.append(end_word[%s])' % k, 'new_end.append(end_word[%s].upper())' % k
+        tail_ch = k[1] if isinstance(k, tuple) else 'end_word[%s]' % k
+        keep, up = 'new_end.append(%s)' % tail_ch, 'new_end.append(%s.upper())' % tail_ch
         if U(t) == "%s == 'L'" % ch and a1 == keep and a2 == up:
             shape_ok = True
         if U(t) in ("%s == 'U'" % ch, "%s != 'L'" % ch) and a2 == keep and a1 == up:
@@ -279,7 +295,7 @@ def mask_application(ctx, rule, qual, branch_body, multi, strict_char_map=True):
             # for one-to-one case mappings upper-casing the whole tail first is equivalent
             ups = [k_ for k_, v in assigns.items() if U(v) == 'end_word.upper()']
             for u_ in ups:
-                if U(t) == "%s == 'L'" % ch and a1 == keep and a2 == 'new_end.append(%s[%s])' % (u_, k):
+                if not isinstance(k, tuple) and U(t) == "%s == 'L'" % ch and a1 == keep and a2 == 'new_end.append(%s[%s])' % (u_, k):
                     shape_ok = True
         facts['char_map'] = {'test': U(t), 'then': a1, 'else': a2, 'position': k}
     else:
